@@ -77,6 +77,7 @@ type Flow struct {
 	// SACK connection state as forged in the SYN-ACK
 	RemoteISN uint32
 	LocalISN  uint32 // value of the forged ack: probes carry seq = LocalISN + ttl
+	TS        bool   // TCP timestamps were negotiated in the handshake: every later segment of the target carries the option
 }
 
 func mustAddr(s string) netip.Addr {
@@ -295,6 +296,13 @@ func (r Reply) encode(probe []byte, fl Flow) ([]byte, error) {
 					be.PutUint32(opt[8:12], v+1)
 				}
 				t.Options = opt
+			}
+			if fl.TS { // RFC 7323: TSval advances with the target's clock (here: with the probe answered), TSecr echoes ours
+				ts := make([]byte, 12)
+				ts[0], ts[1], ts[2], ts[3] = 1, 1, 8, 10
+				be.PutUint32(ts[4:8], 0x10000000+100*uint32(pt.Seq-fl.LocalISN))
+				be.PutUint32(ts[8:12], 0x20000000)
+				t.Options = append(ts, t.Options...)
 			}
 		}
 		t.Flags = uint8(r.mod("flags", int64(t.Flags)))
